@@ -22,6 +22,7 @@ import (
 	"mellium.im/xmpp/jid"
 	"mellium.im/xmpp/stanza"
 	"mellium.im/xmpp/stream"
+	"mellium.im/xmpp/websocket"
 )
 
 var (
@@ -104,17 +105,63 @@ type logConn struct {
 	net.Conn
 	r   io.Reader
 	rec func() *Recorder
+
+	fmu    sync.Mutex
+	armed  bool
+	failAt int // the failAt-th write after arming fails (nothing is written)
+	writes int
+	fired  bool
+	nbytes int // bytes handed to the connection so far
+}
+
+// Written returns the number of bytes written to the connection so far.
+func (c *logConn) Written() int {
+	c.fmu.Lock()
+	defer c.fmu.Unlock()
+	return c.nbytes
+}
+
+// ErrFault is the error of a connection write made to fail by a fault plan.
+var ErrFault = errors.New("harness: connection write failed")
+
+// Arm makes the k-th write from now on fail.
+func (c *logConn) Arm(k int) {
+	c.fmu.Lock()
+	c.armed, c.failAt, c.writes, c.fired = true, k, 0, false
+	c.fmu.Unlock()
+}
+
+// Disarm ends the fault plan and reports whether the fault happened.
+func (c *logConn) Disarm() bool {
+	c.fmu.Lock()
+	defer c.fmu.Unlock()
+	c.armed = false
+	return c.fired
 }
 
 func (c *logConn) Read(p []byte) (int, error) { return c.r.Read(p) }
 
 func (c *logConn) Write(p []byte) (int, error) {
+	c.fmu.Lock()
+	if c.armed {
+		c.writes++
+		if c.writes == c.failAt {
+			c.fired = true
+			c.fmu.Unlock()
+			return 0, ErrFault
+		}
+	}
+	c.fmu.Unlock()
 	if string(p) == CloseTag {
 		if r := c.rec(); r != nil {
 			r.NoteClose()
 		}
 	}
-	return c.Conn.Write(p)
+	n, err := c.Conn.Write(p)
+	c.fmu.Lock()
+	c.nbytes += n
+	c.fmu.Unlock()
+	return n, err
 }
 
 // plainRW hides the net.Conn methods (a transport without deadlines).
@@ -125,25 +172,75 @@ type plainRW struct {
 
 // Sess is a Ready session on an in-memory pipe with a recorder installed.
 type Sess struct {
-	S    *xmpp.Session
-	P    *hx.Pipe
-	Rec  *Recorder
-	NS   string
-	From string // the from address stanzaEncoder adds ("" on c2s)
+	S     *xmpp.Session
+	P     *hx.Pipe
+	Rec   *Recorder
+	LC    *logConn
+	NS    string // the content name space of the output stream
+	InNS  string // the default name space of the peer's header
+	WS    bool   // WebSocket framing
+	Local string // the local address
+	From  string // the from address stanzaEncoder adds ("" unless the output stream is jabber:server)
+	// WireStart is the number of bytes written during negotiation (stream header,
+	// features): what the calls put on the wire follows
+	WireStart int
 }
 
 type SessOpts struct {
 	S2S       bool
 	Received  bool
 	Deadlines bool // give the session a net.Conn (read deadlines work)
+	// PeerNS is the default name space of the peer's stream header when it is not
+	// ours (the library accepts either content name space on TCP)
+	PeerNS string `json:",omitempty"`
+	// Real: the session is negotiated by the library's own negotiator
+	// (xmpp.NewNegotiator, or websocket.Negotiator if WS) against a scripted peer
+	// instead of a stub negotiator that declares it ready
+	Real bool `json:",omitempty"`
+	WS   bool `json:",omitempty"`
 }
 
-func readyNegotiator(ns string, extra xmpp.SessionState, local, remote jid.JID) xmpp.Negotiator {
+// NSFraming is the name space of the WebSocket framing elements.
+const NSFraming = "urn:ietf:params:xml:ns:xmpp-framing"
+
+const nsReady = "urn:verif:ready"
+
+// readyFeature is a required stream feature that completes negotiation: a
+// received session cannot finish without negotiating one feature.
+func readyFeature() xmpp.StreamFeature {
+	return xmpp.StreamFeature{
+		Name: xml.Name{Space: nsReady, Local: "ready"},
+		List: func(ctx context.Context, e xmlstream.TokenWriter, start xml.StartElement) (bool, error) {
+			if err := e.EncodeToken(start); err != nil {
+				return true, err
+			}
+			return true, e.EncodeToken(start.End())
+		},
+		Parse: func(ctx context.Context, d *xml.Decoder, start *xml.StartElement) (bool, interface{}, error) {
+			return true, nil, d.Skip()
+		},
+		Negotiate: func(ctx context.Context, s *xmpp.Session, data interface{}) (xmpp.SessionState, io.ReadWriter, error) {
+			if s.State()&xmpp.Received == xmpp.Received {
+				r := s.TokenReader()
+				defer r.Close()
+				if _, err := r.Token(); err != nil {
+					return 0, nil, err
+				}
+				if err := xmlstream.Skip(r); err != nil {
+					return 0, nil, err
+				}
+			}
+			return xmpp.Ready, nil, nil
+		},
+	}
+}
+
+func readyNegotiator(ns, inNS string, extra xmpp.SessionState, local, remote jid.JID) xmpp.Negotiator {
 	return func(ctx context.Context, in, out *stream.Info, s *xmpp.Session, data interface{}) (xmpp.SessionState, io.ReadWriter, interface{}, error) {
 		rc := s.TokenReader()
 		_, err := rc.Token()
 		rc.Close()
-		in.XMLNS, out.XMLNS = ns, ns
+		in.XMLNS, out.XMLNS = inNS, ns
 		if extra&xmpp.Received == xmpp.Received {
 			in.To, in.From = local, remote
 			out.To, out.From = remote, local
@@ -153,7 +250,7 @@ func readyNegotiator(ns string, extra xmpp.SessionState, local, remote jid.JID) 
 }
 
 func NewSess(o SessOpts) (*Sess, error) {
-	x := &Sess{NS: stanza.NSClient}
+	x := &Sess{NS: stanza.NSClient, WS: o.WS && o.Real}
 	var state xmpp.SessionState
 	if o.S2S {
 		x.NS = stanza.NSServer
@@ -162,25 +259,79 @@ func NewSess(o SessOpts) (*Sess, error) {
 	if o.Received {
 		state |= xmpp.Received
 	}
+	x.InNS = x.NS
+	if o.PeerNS != "" {
+		x.InNS = o.PeerNS
+	}
+	if x.WS {
+		x.InNS = NSFraming
+	}
 	local, remote := jid.MustParse("me@example.net/r"), jid.MustParse("example.org")
 	if o.S2S {
 		local = jid.MustParse("example.net")
 	}
+	if o.Real && o.Received {
+		// the addresses come from the peer's header
+		local, remote = jid.MustParse("example.net"), jid.MustParse("me@example.net")
+		if o.S2S {
+			remote = jid.MustParse("example.org")
+		}
+	}
 	x.P = hx.NewPipe()
-	hdr := `<stream:stream id="123" version="1.0" xmlns="` + x.NS + `" xmlns:stream="` + stream.NS + `">`
-	lc := &logConn{Conn: x.P.Sess, r: io.MultiReader(strings.NewReader(hdr), x.P.Sess), rec: func() *Recorder { return x.Rec }}
+	// what the peer sends during negotiation is scripted: the library reads it in
+	// order, and everything the session writes is consumed by the pipe
+	var script string
+	switch {
+	case !o.Real:
+		script = `<stream:stream id="123" version="1.0" xmlns="` + x.InNS + `" xmlns:stream="` + stream.NS + `">`
+	case x.WS:
+		script = `<open xmlns="` + NSFraming + `" id="123" version="1.0" from="` + remote.String() + `" to="` + local.String() + `"/>`
+		if o.Received {
+			script += `<ready xmlns="` + nsReady + `"/>`
+		} else {
+			script += `<stream:features xmlns:stream="` + stream.NS + `"/>`
+		}
+	default:
+		script = `<stream:stream id="123" version="1.0" xmlns="` + x.InNS + `" xmlns:stream="` + stream.NS + `" from="` + remote.String() + `" to="` + local.String() + `">`
+		if o.Received {
+			script += `<ready xmlns="` + nsReady + `"/>`
+		} else {
+			script += `<stream:features/>`
+		}
+	}
+	lc := &logConn{Conn: x.P.Sess, r: io.MultiReader(strings.NewReader(script), x.P.Sess), rec: func() *Recorder { return x.Rec }}
+	x.LC = lc
 	var rw io.ReadWriter = lc
 	if !o.Deadlines {
 		rw = plainRW{Reader: lc, Writer: lc}
 	}
+	neg := readyNegotiator(x.NS, x.InNS, state, local, remote)
+	if o.Real {
+		cfg := func(*xmpp.Session, *xmpp.StreamConfig) xmpp.StreamConfig {
+			if o.Received {
+				return xmpp.StreamConfig{Features: []xmpp.StreamFeature{readyFeature()}}
+			}
+			return xmpp.StreamConfig{}
+		}
+		if x.WS {
+			neg = websocket.Negotiator(cfg)
+		} else {
+			neg = xmpp.NewNegotiator(cfg)
+		}
+	}
+	ctx, cancel := context.WithTimeout(context.Background(), 20*time.Second)
+	defer cancel()
 	var err error
 	if o.Received {
-		x.S, err = xmpp.ReceiveSession(context.Background(), rw, state, readyNegotiator(x.NS, state, local, remote))
+		x.S, err = xmpp.ReceiveSession(ctx, rw, state, neg)
 	} else {
-		x.S, err = xmpp.NewSession(context.Background(), remote, local, rw, state, readyNegotiator(x.NS, state, local, remote))
+		x.S, err = xmpp.NewSession(ctx, remote, local, rw, state, neg)
 	}
 	if err != nil {
 		return nil, err
+	}
+	if x.S.State()&xmpp.Ready == 0 {
+		return nil, errors.New("negotiation ended without a ready session")
 	}
 	ok := x.S.VerifTapOutput(func(inner xmlstream.TokenWriteFlusher) xmlstream.TokenWriteFlusher {
 		x.Rec = NewRecorder(inner)
@@ -189,9 +340,19 @@ func NewSess(o SessOpts) (*Sess, error) {
 	if !ok {
 		return nil, errors.New("session has no stanza encoder to tap")
 	}
-	if o.S2S {
-		x.From = x.S.LocalAddr().String()
+	if got := x.S.Out().XMLNS; got != x.NS {
+		return nil, fmt.Errorf("the output stream's name space is %q, want %q", got, x.NS)
 	}
+	if got := x.S.In().XMLNS; got != x.InNS {
+		return nil, fmt.Errorf("the input stream's name space is %q, want %q", got, x.InNS)
+	}
+	x.Local = x.S.LocalAddr().String()
+	if x.NS == stanza.NSServer {
+		x.From = x.Local
+	}
+	// everything written so far belongs to the negotiation (a write to the pipe
+	// returns once the capturing side has taken the bytes)
+	x.WireStart = lc.Written()
 	return x, nil
 }
 
